@@ -46,8 +46,14 @@ def all_reports():
 
 
 def make_config(sc):
+    b1, b2 = {}, ({'extra_args': '%z'} if sc['path'] == 'ui_error' else {})
+    # runs of one session with *different* env maps (also: none, and the inherited one)
+    for name, d in (('B1', b1), ('B2', b2)):
+        e = (sc.get('bench_env') or {}).get(name)
+        if e is not None:
+            d['env'] = dict(e)
     suite = {'gauge_adapter': 'RebenchLog', 'command': 'h %(benchmark)s %(invocation)s',
-             'benchmarks': ['B1', {'B2': {'extra_args': '%z'}} if sc['path'] == 'ui_error' else 'B2']}
+             'benchmarks': [{'B1': b1} if b1 else 'B1', {'B2': b2} if b2 else 'B2']}
     cfg = {'default_experiment': 'T', 'default_data_file': 't.data',
            'runs': {'invocations': 2, 'min_iteration_time': 0},
            'benchmark_suites': {'S': suite}, 'executors': {'E': {'path': '.', 'executable': 'exe'}},
@@ -60,6 +66,24 @@ def make_config(sc):
         cfg['experiments']['T']['action'] = 'profile'
         cfg['executors']['E']['profiler'] = {'perf': {}}
     return cfg
+
+
+def env_of_start(sc, text):
+    """the configured env map of the run a started command belongs to"""
+    for name in ('B1', 'B2'):
+        if (' h %s ' % name) in text + ' ':
+            e = (sc.get('bench_env') or {}).get(name)
+            return dict(e) if e is not None else dict(sc['env'])
+    return dict(sc['env'])
+
+
+def gen_bench_env(rng):
+    x = rng.random()
+    if x < 0.25:
+        return None
+    pool = [None, {}, {'A': '1'}, {'B': '2', 'A': '1'}, {'LANG': 'C', 'JAVA_HOME': '/opt/j', 'X_1': 'a b'},
+            {'ONLY_HERE': 'x'}, {'Z': '', 'A': '9'}]
+    return {'B1': rng.choice(pool), 'B2': rng.choice(pool)}
 
 
 def make_script(sc):
@@ -215,13 +239,16 @@ def check_sessions(ck, scenarios):
         # ------------------------------------------------ oracle
         trace_oracle(ck, inp, sc, trace, [(e[1], e[2]) for e in sudo], ending, sc['num_cores'])
         # wrapping of every benchmark command
-        env = sc['env']
-        prefix = expected_prefix(sc, env, denoise_path)
+        seen_keysets = set()
         for e in starts:
             text = e[2]
             if 'perf report' in text:
                 ck.count('start:perf-report-step')
                 continue
+            # "forwarding exactly the run's configured environment variables": per start
+            env = env_of_start(sc, text)
+            seen_keysets.add(tuple(env.keys()))
+            prefix = expected_prefix(sc, env, denoise_path)
             words = shlex.split(text)
             inner_at = (words.index('--') + 1) if ('--' in words and words[0] == 'sudo') else 0
             if words[:inner_at] != prefix:
@@ -229,12 +256,19 @@ def check_sessions(ck, scenarios):
                                {'nice': granted(sc['report'], 'nice'), 'shield': granted(sc['report'], 'shield')})
             if (e[3] or {}) != env:
                 ck.oracle_fail('env_forwarded', inp, {'expected': env, 'observed': e[3]})
+            pe = [w_ for w_ in words[:inner_at] if w_.startswith('--preserve-env=')]
+            want_pe = ['--preserve-env=' + ','.join(env.keys())] if (env and prefix) else []
+            if pe != want_pe:
+                ck.oracle_fail('env_forwarded', inp, {'expected': want_pe, 'observed': pe, 'command': text},
+                               {'what': 'preserve-env list'})
             inner = text.split(' exec -- ', 1)[1] if (text.startswith('sudo ') and ' exec -- ' in text) else text
             wrap_ops.append({'op': 'c20.wrap', 'use_nice': None, 'use_shielding': None,
                              'env_keys': list(env.keys()), 'profiling': sc['profiling'],
                              'cset': sc['cset'], 'denoise': denoise_path, 'num_cores': str(sc['num_cores']),
                              'cmd': inner})
             wrap_recs.append((inp, text, len(sess_ops)))
+        if len(seen_keysets) > 1:
+            ck.count('session:runs-with-different-env-keys')
         # ------------------------------------------------ model
         if n_restore:
             ri = max(i for i, t in enumerate(trace) if t['t'] == 'restore')
@@ -407,22 +441,28 @@ def check_cli(ck, scenarios):
                             'cause': 'child-not-killed' if not r['killed'] else 'other'})
         # wrapping as seen by the fake sudo, env as seen by the benchmark process
         sc2 = dict(sc, num_cores=num_cores)
-        prefix = expected_prefix(sc2, r['run_env'], denoise_path)
+
+        def env_for(words):
+            return r['run_env_b2'] if 'B2' in words else r['run_env']
+        wrapped = bool(expected_prefix(sc2, r['run_env'], denoise_path))
         n_starts = sum(1 for t in trace if t['t'] == 'start')
-        if prefix and len(execs) != n_starts:
+        if wrapped and len(execs) != n_starts:
             ck.oracle_fail('wrap_as_granted', inp, {'wrapped_starts': len(execs), 'starts': n_starts},
                            {'what': 'count'})
-        if not prefix and execs:
+        if not wrapped and execs:
             ck.oracle_fail('wrap_as_granted', inp, {'unexpected_sudo_exec': execs[:2]}, {'what': 'not-granted'})
         for a in execs:
             k = a.index('--')
+            prefix = expected_prefix(sc2, env_for(a[k + 1:]), denoise_path)
             if a[:k + 1] != prefix:
                 ck.oracle_fail('wrap_as_granted', inp, {'expected_prefix': prefix, 'observed': a},
                                {'nice': granted(rep, 'nice'), 'shield': granted(rep, 'shield')})
+        start_args = dict((int(e[2]), e[3:]) for e in r['events'] if e[0] == 'start')
         for n, env in r['envs'].items():
             got = dict((k, v) for k, v in env.items() if k not in ('PWD', 'OLDPWD', 'SHLVL', '_'))
-            if got != r['run_env']:
-                ck.oracle_fail('env_forwarded', inp, {'expected': r['run_env'], 'observed': got})
+            want = env_for(start_args.get(n, []))
+            if got != want:
+                ck.oracle_fail('env_forwarded', inp, {'expected': want, 'observed': got, 'args': start_args.get(n)})
         # model
         if any(t['t'] == 'restore' for t in trace):
             ri = max(i for i, t in enumerate(trace) if t['t'] == 'restore')
@@ -692,7 +732,8 @@ def gen_scenarios(ck, quick):
                 if quick and profiling and rng.random() < 0.5:
                     continue
                 out.append({'kind': 'session', 'report': rep, 'path': path, 'profiling': profiling,
-                            'no_denoise': False, 'env': rng.choice(ENVS), 'cset': rng.choice([None, '/usr/bin/cset']),
+                            'no_denoise': False, 'env': rng.choice(ENVS), 'bench_env': gen_bench_env(rng),
+                            'cset': rng.choice([None, '/usr/bin/cset']),
                             'num_cores': rng.choice([1, 2, 4, 8, 64, 4096]), 'at': rng.choice([1, 2, 3]),
                             'restore': rng.choice(['ok', 'ok', 'fails'])})
     for path in ['plan'] * 4 + (['timeout'] * 6 if not quick else []):
